@@ -135,7 +135,7 @@ func ConnectTLSCerts(ver uint16, pem, key []byte) Setting {
 	c[2], c[3] = byte(p>>8), byte(p)
 	c[4], c[5] = byte(k>>8), byte(k)
 	n := copy(c[6:], pem[:p]) + 6
-	copy(c[n:], key[:p])
+	copy(c[n:], key[:k])
 	return &c
 }
 
